@@ -679,4 +679,104 @@ theorem rounds_bytes_single (cfg : Cfg) (ops : List SysOp) (s : Sys) (hr : (Sys.
   obtain ⟨pkU, hU, -⟩ := system_inv cfg ops' su hr'
   exact ⟨single_only hU.invA.1 (single_order hsingle hU), by rw [single_avail hsingle hU]; exact Nat.le_refl _⟩
 
+/-! ## Part 6 — executable checkers for the side conditions (used for concrete examples) -/
+
+instance (L : List Bytes) (r : RecvRel) : Decidable (Room L r) := by unfold Room; infer_instance
+
+instance (ch : Nat) (p : Packet) : Decidable (OnlyCh ch p) := by
+  cases p <;> unfold OnlyCh <;> infer_instance
+
+def countersSysb (cfg : Cfg) (s : Sys) : Bool :=
+  decide (∀ c ∈ cfg.send, c.id < 256) && decide (s.a.packetSeq ≤ Varint.MAX + 1) &&
+  decide (∀ c ∈ cfg.send, (s.submitted c.id).length ≤ Varint.MAX + 1) &&
+  decide (∀ c ∈ cfg.send, ∀ m ∈ s.submitted c.id, m.length ≤ MAX_NUM_SLICES * SLICE_SIZE) &&
+  decide (∀ c ∈ cfg.send, ∀ m ∈ s.submittedU c.id, m.length ≤ MAX_NUM_SLICES * SLICE_SIZE)
+
+theorem countersSys_of_b {cfg : Cfg} {s : Sys} (h : countersSysb cfg s = true) : CountersOK cfg s := by
+  simp only [countersSysb, Bool.and_eq_true, decide_eq_true_eq] at h
+  obtain ⟨⟨⟨⟨h1, h2⟩, h3⟩, h4⟩, h5⟩ := h
+  exact ⟨h1, h2, h3, h4, h5⟩
+
+def tickOKb (cfg : Cfg) (ch : Nat) (schedb : Sys → Bool) (su : Sys) (r : RoundP) : Bool :=
+  countersSysb cfg su && CI.countersOKb su.a && schedb su &&
+  decide (∀ k ∈ newIdx su, k ∈ r.ks) && decide (∀ k ∈ r.ks, k ∈ newIdx su) &&
+  decide (su.b.pendingAcks.length + r.ks.length < ACK_RANGE_CAP) &&
+  (match su.run (roundOps ch r.ks r.n) with
+   | some u => CI.countersOKb u.b && !u.b.pendingAcks.isEmpty && decide (r.ai = ackIdx u)
+   | none => true)
+
+def roundOKb (cfg : Cfg) (ch : Nat) (schedb : Sys → Bool) (s : Sys) (r : RoundP) : Bool :=
+  (match SMap.find? s.a.sendRel ch with
+   | some sA => decide (sA.resend ≤ r.dt)
+   | none => true) &&
+  decide ((s.submitted ch).length ≤ (s.obtained ch).length + r.n) &&
+  (match s.step (.updA r.dt) with
+   | some su => tickOKb cfg ch schedb su r
+   | none => true)
+
+def roundsb (cfg : Cfg) (ch : Nat) (schedb : Sys → Bool) : Sys → List RoundP → Bool
+  | _, [] => true
+  | s, r :: rs => roundOKb cfg ch schedb s r &&
+    (match s.run (r.ops ch) with
+     | some v => roundsb cfg ch schedb v rs
+     | none => true)
+
+theorem tickOK_of_b {cfg : Cfg} {ch : Nat} {Sched : Sys → Prop} {schedb : Sys → Bool}
+    (hS : ∀ su, schedb su = true → Sched su) {su : Sys} {r : RoundP} (h : tickOKb cfg ch schedb su r = true) :
+    TickOK cfg ch Sched su r := by
+  simp only [tickOKb, Bool.and_eq_true, decide_eq_true_eq] at h
+  obtain ⟨⟨⟨⟨⟨⟨h1, h2⟩, h3⟩, h4⟩, h5⟩, h6⟩, h7⟩ := h
+  refine ⟨countersSys_of_b h1, CI.countersOK_of_b h2, hS su h3, h4, h5, h6, ?_⟩
+  intro u hu
+  rw [hu] at h7
+  simp only [Bool.and_eq_true, decide_eq_true_eq, Bool.not_eq_true', List.isEmpty_eq_false_iff] at h7
+  exact ⟨CI.countersOK_of_b h7.1.1, h7.1.2, h7.2⟩
+
+theorem roundOK_of_b {cfg : Cfg} {ch : Nat} {Sched : Sys → Prop} {schedb : Sys → Bool}
+    (hS : ∀ su, schedb su = true → Sched su) {s : Sys} {r : RoundP} (h : roundOKb cfg ch schedb s r = true) :
+    RoundOK cfg ch Sched s r := by
+  simp only [roundOKb, Bool.and_eq_true, decide_eq_true_eq] at h
+  obtain ⟨⟨h1, h2⟩, h3⟩ := h
+  refine ⟨?_, h2, ?_⟩
+  · intro sA hf
+    rw [hf] at h1
+    simpa using h1
+  · intro su hsu
+    rw [hsu] at h3
+    exact tickOK_of_b hS h3
+
+/-- soundness of the checker: `roundsb … = true` (by `decide +kernel` on a concrete state) gives `Rounds` -/
+theorem rounds_of_b {cfg : Cfg} {ch : Nat} {Sched : Sys → Prop} {schedb : Sys → Bool}
+    (hS : ∀ su, schedb su = true → Sched su) : ∀ (rs : List RoundP) (s : Sys), roundsb cfg ch schedb s rs = true →
+    Rounds cfg ch Sched s rs
+  | [], _, _ => trivial
+  | r :: rs, s, h => by
+    simp only [roundsb, Bool.and_eq_true] at h
+    refine ⟨roundOK_of_b hS h.1, ?_⟩
+    intro v hv
+    have h2 := h.2
+    rw [hv] at h2
+    exact rounds_of_b hS rs v h2
+
+def schedCountb (ch q : Nat) (su : Sys) : Bool :=
+  decide (∀ p ∈ flushPk su.a, OnlyCh ch p) &&
+  (match SMap.find? su.a.sendRel ch with
+   | some sA => decide (backlog (sA.unacked.take q) ≤ availAtTurn su.a ch)
+   | none => true)
+
+theorem schedCount_of_b (ch q : Nat) (su : Sys) (h : schedCountb ch q su = true) : SchedCount ch q su := by
+  simp only [schedCountb, Bool.and_eq_true, decide_eq_true_eq] at h
+  refine ⟨h.1, ?_⟩
+  intro sA hf
+  have h2 := h.2
+  rw [hf] at h2
+  simpa using h2
+
+def schedBytesb (ch B : Nat) (su : Sys) : Bool :=
+  decide (∀ p ∈ flushPk su.a, OnlyCh ch p) && decide (B ≤ availAtTurn su.a ch)
+
+theorem schedBytes_of_b (ch B : Nat) (su : Sys) (h : schedBytesb ch B su = true) : SchedBytes ch B su := by
+  simp only [schedBytesb, Bool.and_eq_true, decide_eq_true_eq] at h
+  exact h
+
 end RenetVerif.LiveK
